@@ -1,7 +1,10 @@
 //! Timer implementation for the Sentinel.
 //! It supports a cached timer and a real-time timer from `unix_timestamp_nanos`.
 
+#[cfg(not(sentinel_verif))]
 use lazy_static::lazy_static;
+#[cfg(sentinel_verif)]
+use sentinel_verif_rt::lazy_static;
 use time::{macros::format_description, Duration, OffsetDateTime};
 
 lazy_static! {
@@ -78,8 +81,14 @@ pub use ticker::*;
 // provide cached time by a ticker
 pub mod ticker {
     use super::*;
+    #[cfg(not(sentinel_verif))]
     use lazy_static::lazy_static;
+    #[cfg(sentinel_verif)]
+    use sentinel_verif_rt::lazy_static;
+    #[cfg(not(sentinel_verif))]
     use std::sync::atomic::{AtomicU64, Ordering};
+    #[cfg(sentinel_verif)]
+    use sentinel_verif_rt::sync::atomic::{AtomicU64, Ordering};
 
     lazy_static! {
         static ref NOW_IN_MS: AtomicU64 = AtomicU64::new(0);
